@@ -45,8 +45,10 @@ func ringDegScenario(rt ring.Type, logN int, ch rk.Chain, bound int) engine.Scen
 		level := kp.levelQ - c.Choose(kp.levelQ+1, "ctLevel")
 		isNTT := c.Choose(2, "IsNTT") == 0
 		top := c.Bool("operand")
+		// receiver: 0 at the input's level, 1 one level below, 2 above (top level)
+		outMode := c.Choose(3, "out")
 		dirName := []string{"small->large", "large->small"}[dir]
-		cfg := fmt.Sprintf("ApplyEvaluationKey %s %s ctLevel=%d IsNTT=%v top=%v", dirName, kp, level, isNTT, top)
+		cfg := fmt.Sprintf("ApplyEvaluationKey %s %s ctLevel=%d IsNTT=%v top=%v out=%d", dirName, kp, level, isNTT, top, outMode)
 		c.Note("%s", cfg)
 		c.Cover("op", "ApplyEvaluationKey/"+dirName)
 		c.Cover("ring", ringName(rt))
@@ -61,6 +63,18 @@ func ringDegScenario(rt ring.Type, logN int, ch rk.Chain, bound int) engine.Scen
 				return known
 			}
 			return "C04/ApplyEvaluationKey/" + dirName + "/" + clause
+		}
+		inLevel, outLevel := level, level
+		switch {
+		case outMode == 1 && level > 0:
+			outLevel, level = level-1, level-1 // the operation runs at the minimum
+			c.Cover("out", "ringdeg-below-input")
+		case outMode == 2 && level < pL.MaxLevel():
+			outLevel = pL.MaxLevel()
+			c.Cover("out", "ringdeg-above-input")
+			if known == "" {
+				known = sigApplyNoResize
+			}
 		}
 		bnd := ksBound(pL, level, kp, beOf(pL), bsOf(pL))
 		if !inScope(bnd, qAt(pL, level)) {
@@ -80,13 +94,13 @@ func ringDegScenario(rt ring.Type, logN int, ch rk.Chain, bound int) engine.Scen
 				if err := expand(pL, evk, kp, level%2 == 1); err != nil {
 					return err
 				}
-				ct := uniformCt(pS, 1, level, isNTT, name, cfg, "ct")
+				ct := uniformCt(pS, 1, inLevel, isNTT, name, cfg, "ct")
 				if top {
 					topOfRange(pS, ct, 1)
 				}
-				want = rk.Embed(rk.Phase(rt, pS.RingQ(), &ct.Element, sS), 2)
+				want = rk.CenterAll(rk.Embed(rk.Phase(rt, pS.RingQ(), &ct.Element, sS), 2), qAt(pL, level))
 				sOut = sL
-				out = rlwe.NewCiphertext(pL, 1, level)
+				out = rlwe.NewCiphertext(pL, 1, outLevel)
 				in := *ct.MetaData
 				if err := eval.ApplyEvaluationKey(ct, evk, out); err != nil {
 					return err
@@ -99,13 +113,13 @@ func ringDegScenario(rt ring.Type, logN int, ch rk.Chain, bound int) engine.Scen
 				if err := expand(pL, evk, kp, level%2 == 1); err != nil {
 					return err
 				}
-				ct := uniformCt(pL, 1, level, isNTT, name, cfg, "ct")
+				ct := uniformCt(pL, 1, inLevel, isNTT, name, cfg, "ct")
 				if top {
 					topOfRange(pL, ct, 1)
 				}
-				want = rk.Subsample(rk.Phase(rt, pL.RingQ(), &ct.Element, sL), 2)
+				want = rk.CenterAll(rk.Subsample(rk.Phase(rt, pL.RingQ(), &ct.Element, sL), 2), qAt(pL, level))
 				sOut, pOut = sS, pS
-				out = rlwe.NewCiphertext(pS, 1, level)
+				out = rlwe.NewCiphertext(pS, 1, outLevel)
 				in := *ct.MetaData
 				if err := eval.ApplyEvaluationKey(ct, evk, out); err != nil {
 					return err
@@ -122,6 +136,10 @@ func ringDegScenario(rt ring.Type, logN int, ch rk.Chain, bound int) engine.Scen
 		}
 		if err != nil {
 			c.Fail(sig("error"), "%s: %v", cfg, err)
+			return
+		}
+		if out.Level() != level {
+			c.Fail(sig("level"), "%s: output level %d, want min(input %d, receiver %d) = %d", cfg, out.Level(), inLevel, outLevel, level)
 			return
 		}
 		judge(c, sig("phase"), cfg, rt, pOut.RingQ(), out, sOut, want, bnd)
